@@ -55,6 +55,10 @@ CHECKS = {
    text="SendOOB -> real postProcess -> real Listener.packetInput -> handler, with symbolic payload bytes at lengths {0,1,max-1,max,max+1} for three cipher classes: intact or refused, exactly once, never touching KCP, FEC encoder sequence/shard state or FEC decoder (write sets), size on the wire within the MTU, full queue dropped and recycled once, no FEC -> refused. Bounded symbolic model checking.",
    note="Trusted: gse, solvers. Sequential; rates are argued per call.",
    design="§4 C19"),
+ "C14": dict(
+   text="Partial: a sufficient condition, not schedules. Each entry point of UDPSession/Listener (and the library's own update / postProcess iteration / packetInput bodies, TimedSched.Put) is executed symbolically from an established session with symbolic arguments while a monitor checks every load and store on every feasible path against the discipline the anchors name: protocol core, receive buffer, FEC decoder and flags only under s.mu; the session table only under sessionLock (R/W); cipher scratch under encMu/decMu; deadlines, counters, callbacks only through atomics; construction-time constants never written. By the lock-set argument a clean run implies race freedom for the covered locations under every interleaving. Bounded symbolic model checking of the discipline.",
+   note="Trusted: the guard table (hand-written from the anchors), gse's lock model. Interleavings are not enumerated; findings are confirmed by concrete re-execution in gse, not by go test -race.",
+   design="§4 C14"),
 }
 
 NOT_APPLICABLE = {}
